@@ -407,6 +407,21 @@ def check_C05(tier):
         os.remove(cpath)
         C.log("[total] %d inputs, every public operation, in child processes (%.1fs)" % (len(cases), time.time() - t1))
     obs = L.read_ndjson(path)
+    # an input whose worker exceeded the time limit is run once more, alone and with a five times longer limit: on a
+    # loaded machine a worker can stall for reasons that have nothing to do with the input
+    slow = [o["id"] for o in obs if o["outcome"] == "timeout"]
+    if slow:
+        rpath = path + ".retry%d" % os.getpid()
+        L.write_ndjson(rpath + ".cases", [c for c in cases if c["id"] in set(slow)])
+        try:
+            C.run_wv(["total", "--threads", "2", "--timeout", "300"], stdin_path=rpath + ".cases", stdout_path=rpath, timeout=7000)
+            again = {o["id"]: o for o in L.read_ndjson(rpath)}
+        finally:
+            for f in (rpath, rpath + ".cases"):
+                if os.path.exists(f):
+                    os.remove(f)
+        obs = [again.get(o["id"], o) for o in obs]
+        C.log("[total] %d inputs exceeded the time limit and were run again alone; %d still do" % (len(slow), sum(1 for o in again.values() if o["outcome"] == "timeout")))
     by_id = {o["id"]: o for o in obs}
     v = C.Verdict("C05")
 
@@ -416,7 +431,14 @@ def check_C05(tier):
         return "%r: %s %s" % (e, r["what"], json.dumps(x))
 
     # the record that TLC attributes carries a site without its line number (line numbers move)
-    out, stats = C.tlc("ObsCheck.tla", "ObsCheck_C05.cfg", env={"OBS": path, "PROP": "C05"}, timeout=3000, java_opts=["-Xmx12g"])
+    if slow:
+        path = path + ".merged%d" % os.getpid()
+        L.write_ndjson(path, obs)
+    try:
+        out, stats = C.tlc("ObsCheck.tla", "ObsCheck_C05.cfg", env={"OBS": path, "PROP": "C05"}, timeout=3000, java_opts=["-Xmx12g"])
+    finally:
+        if slow and os.path.exists(path):
+            os.remove(path)
     if not stats["ok"]:
         C.log(stats.get("tail", ""))
         raise C.ToolError("TLC did not complete on ObsCheck_C05")
